@@ -35,6 +35,35 @@ def _syscall(pid):
         return ["-1"]
 
 
+def _rchar(pid):
+    """bytes the process has obtained from read() calls so far (all descriptors)"""
+    try:
+        with open("/proc/%d/io" % pid) as f:
+            return int(f.readline().split()[1])
+    except (OSError, ValueError, IndexError):
+        return None
+
+
+def _infinite_wait(sc):
+    """the blocking call has no timeout (a wait with a timeout is still 'busy': the driver
+    must not slip the next chunk into a key-sequence timeout window)"""
+    n = sc[0]
+    try:
+        if n == "0":
+            return True
+        if n == "7":      # poll(fds, nfds, timeout_ms)
+            return int(sc[3], 16) & 0xffffffff == 0xffffffff
+        if n == "271":    # ppoll(fds, nfds, tmo_p, ...)
+            return int(sc[3], 16) == 0
+        if n in ("23", "270"):  # select/pselect6(n, r, w, e, timeout, ...)
+            return int(sc[5], 16) == 0
+        if n in ("232", "281"):  # epoll_wait(epfd, ev, max, timeout)
+            return int(sc[4], 16) & 0xffffffff == 0xffffffff
+    except (IndexError, ValueError):
+        return False
+    return False
+
+
 class Session:
     def __init__(self, exe, spec, cols=80, rows=24, raw_initial=False, timeout=20.0):
         self.timeout = timeout
@@ -79,6 +108,8 @@ class Session:
         os.set_blocking(self.master, False)
         os.set_blocking(self.obs_r, False)
         self.alive = True
+        self.sent = 0
+        self.rbase = None         # rchar of the child when it first waited for the terminal
 
     # -- plumbing
     def _drain(self):
@@ -134,7 +165,7 @@ class Session:
                 return "exited"
             st = _state(self.pid)
             sc = _syscall(self.pid)
-            blocked = st == "S" and sc and sc[0] in BLOCKING_SYSCALLS
+            blocked = st == "S" and sc and sc[0] in BLOCKING_SYSCALLS and _infinite_wait(sc)
             if blocked and sc[0] == "0" and len(sc) > 1 and sc[1] not in ("0x0",):
                 blocked = False     # a read on something else than the tty
             if blocked:
@@ -145,11 +176,19 @@ class Session:
                     pending = 0
                 if pending:
                     blocked = False
+            if blocked and self.rbase is not None:
+                # a pty hands bytes to the slave side asynchronously: the child may still be blocked
+                # only because they have not arrived yet. It must have read everything we sent.
+                rc = _rchar(self.pid)
+                if rc is not None and rc - self.rbase < self.sent:
+                    blocked = False
             if st == "T":
                 return "stopped"
             if blocked and not got:
                 stable += 1
                 if stable >= 2:
+                    if self.rbase is None:
+                        self.rbase = _rchar(self.pid)
                     return "quiet"
             else:
                 stable = 0
@@ -159,6 +198,7 @@ class Session:
 
     def send(self, data):
         os.write(self.master, bytes(data))
+        self.sent += len(data)
         return self.wait_quiet()
 
     def termios_now(self):
